@@ -133,6 +133,8 @@ def gen_case(seed, tier, i):
                      'apply': rng.random() < 0.65, 'inspect': rng.randint(0, 2),
                      'unsaved': rng.random() < 0.25, 'from_disk': rng.random() < 0.5,
                      'order': rng.choice(['code_first', 'diff_first', 'diff_first']),
+                     # renaming a name to itself is legal: the announced new code equals the buffer text
+                     'identity': rng.random() < 0.12,
                      'back': rng.random() < 0.3,
                      'between': rng.choice(['none', 'none', 'gc', 'advance', 'host_restart', 'query'])})
     knobs = {'fast_parser': rng.random() < 0.8, 'cached_size_trigger': rng.choice([2, 600])}
@@ -398,6 +400,11 @@ class C07(base.Engine):
                 script_text = code if code is not None else text
                 line, col = find(script_text, needle)
                 args = {'l': line, 'c': col + off, 'new': step['new']}
+                if step.get('identity') and kind == 'rename':
+                    ltxt = script_text.split('\n')[line - 1]
+                    m = [x for x in re.finditer(r'[A-Za-z_]\w*', ltxt) if x.start() <= col + off <= x.end()]
+                    if m:
+                        args['new'] = m[0].group(0)
                 if 'len' in extra:
                     args['c'] = col
                     args['ul'] = line
@@ -454,10 +461,12 @@ class C07(base.Engine):
                             if res.get('diff_again') != res.get('diff'):
                                 problems.append(('get_diff_not_repeatable', {'op': ev['i'], 'kind': kind, 'args': args}))
                             for pr in check_diff(res, originals):
-                                f = pr[1].get('file') if isinstance(pr[1], dict) else None
+                                f = pr[1].get('file') if isinstance(pr[1], dict) else \
+                                    (pr[1] if isinstance(pr[1], str) else None)
                                 name = pr[0]
                                 if f is not None and f != path and f in unsaved_in_cache and \
-                                        name in ('diff_does_not_apply', 'diff_result_differs_from_new_code'):
+                                        name in ('diff_does_not_apply', 'diff_result_differs_from_new_code',
+                                                 'changed_file_missing_in_diff'):
                                     # listed finding: ANOTHER file of the refactoring was taken from parso's
                                     # cache, which still holds the tree of an unsaved buffer on that path
                                     name = 'unsaved_buffer_tree_used_for_other_file'
